@@ -214,10 +214,24 @@ impl Prop for C14Prop {
             Sub { name: "sweep", kind: SubKind::Enum { count: sweep } },
             Sub { name: "substitution", kind: SubKind::Random { cases: tier.pick(500_000, 20_000_000), len: 160 } },
             Sub { name: "independence", kind: SubKind::Random { cases: tier.pick(100_000, 5_000_000), len: 160 } },
+            Sub { name: "no-juxtaposition", kind: SubKind::Enum { count: 5 * 12 * 14 } },
             Sub { name: "keyed-pairs", kind: SubKind::Random { cases: tier.pick(60_000, 2_000_000), len: 160 } },
         ]
     }
     fn gen_enum(&self, sub: &str, mut idx: u64, _tier: Tier) -> Option<Case> {
+        if sub == "no-juxtaposition" {
+            // "@ ... takes part in every operator and function position but not in implicit multiplication": @ next to a
+            // factor must be rejected in every context, argument positions of variadic functions included
+            let ctxs = ["{}", "max(1,{})", "min({},1)", "avg(1,2,{})", "med(1,{},3)", "pow(2,{})", "abs({})", "-{}", "2*{}", "({})", "max({})", "1+{}"];
+            let forms = ["@2", "@(3)", "2@", "(3)@", "@abs(4)", "@@", "@⌊2⌋", "3!@", "@2.5", "abs(4)@", "@(3)(4)", "@pi", "@sqrt(4)", "2(3)@"];
+            let ev = Ev::ALL[(idx % 5) as usize];
+            idx /= 5;
+            let c = ctxs[(idx % 12) as usize];
+            let f = forms[(idx / 12) as usize % forms.len()];
+            let mut case = Case::new(ev, c.replace("{}", f), ph_pool(ev)[3 % ph_pool(ev).len()].clone());
+            case.aux = vec!["reject".into()];
+            return Some(case);
+        }
         if sub == "sweep" {
             for ev in Ev::ALL {
                 let f = sweep_forms(ev);
@@ -403,6 +417,22 @@ impl Prop for C14Prop {
                 if first.is_ok() && want.is_ok() && !first.same(&want) {
                     sc.nontrivial(case.hash(), || sample(case, &format!("first call {:?} -> {}; second placeholder {} -> {}", t1, first.show(), p2.show(), want.show())));
                 }
+                Ok(())
+            }
+            "no-juxtaposition" => {
+                if !matches!(grammar::recognise(ev, &case.input), grammar::Verdict::Reject) {
+                    sc.exclude("not a rejection case for the reference");
+                    return Ok(());
+                }
+                let o = match eval_normal(sc, ev, &case.input, &case.ph) {
+                    Some(o) => o,
+                    None => return Ok(()),
+                };
+                if o.is_ok() {
+                    return Err(Failure::new(format!("{}/implicit-product-with-placeholder", ev.name()), "Err (@ takes no part in implicit multiplication)", o.show()));
+                }
+                sc.class("@ next to a factor rejected");
+                sc.nontrivial(case.hash(), || sample(case, "Err"));
                 Ok(())
             }
             "independence" => {
